@@ -20,7 +20,7 @@ EXPLANATION = (
     "writer of port_pressure after add_semantics on the optimised path (no other pass can raise the bottleneck). "
     "P8 (a necessary condition of the 0.15-cycle clause, not the clause itself): osaca.inspect runs at least two sweeps of the "
     "balancer, each guarded by `not args.fixed` only; one sweep provably leaves the kernel {0,1},{0,1},{2},{1,2} 0.167 cy "
-    "above its optimum; a sweep under a data-dependent condition is reported as not understood."
+    "above its optimum; a sweep under a data-dependent condition is reported as not understood. P0b: the pressure vector the balancer edits in place is owned by that instruction form alone - the ownership analysis (C01-R6 / C18-R2, embedded) finds no in-place mutator applied to model storage or to any container the model object keeps (e.g. a memoised vector handed out by reference)."
 )
 NOT_DECIDED = (
     "'Never undercuts the exact optimum' and the 0.15-cycle bound against the LP optimum on the enumerated family: "
@@ -40,6 +40,13 @@ def run(ctx):
     C.embed(ctx, "C08", c08.composition_rule, "P0", "composed form (C08-R1)",
             "pressure and micro-ops of a composed instruction come from different sources: the balancer cannot move the share that lies "
             "on ports outside port_uops", ctx.func("ArchSemantics.assign_tp_lt").where())
+    # ---- P0b: the vector the balancer edits in place is the instruction's own: not the model's (or a memoised one shared
+    # by all instructions with the same micro-ops, whose balanced state would be the next kernel's "uniform" start)
+    from . import c01
+    ctx.rule("P0b", "the pressure vector the balancer edits in place belongs to that instruction alone (ownership analysis, C01-R6 / C18-R2)")
+    C.embed(ctx, "C01", c01._r6, "P0b", "own pressure vector (C01-R6)",
+            "the balancer edits a vector that other instructions (or later analyses) share: the uniform starting point of the "
+            "lemma no longer holds for them", f.where())
     # ---- P1 pairing and direction (re-evaluated here: a premise of this lemma)
     ctx.rule("P1", "each step moves one quantum from the max-loaded to the min-loaded admissible port")
     direct = [n for n in sl.body if isinstance(n, ast.AugAssign) and isinstance(n.target, ast.Subscript) and U(n.target.value) == "instr_ports"]
